@@ -38,3 +38,16 @@ func (s *BlockchainRpcTxWatcher) VerifCsvWatched(swapId string) bool {
 	_, ok := s.csvtxWatchList[swapId]
 	return ok
 }
+
+// VerifNewBlock reports a new block to the dispatcher started by
+// StartWatchingTxs, the way StartBlockWatcher does when its poll sees a new
+// tip. It reports false if the dispatcher did not take the block within the
+// timeout.
+func (s *BlockchainRpcTxWatcher) VerifNewBlock(height uint64, timeout time.Duration) bool {
+	select {
+	case s.newBlockChan <- height:
+		return true
+	case <-time.After(timeout):
+		return false
+	}
+}
